@@ -137,7 +137,8 @@ CLAIMS = {
              "func with each operand form incl. alias annotations, data of every element type, bss, ref, lref, expr) with symbolic payloads; "
              "(2) string escapes: MIR_output_str into the real scanner's string reader for ALL byte strings of length <= 3 ending in NUL (both tiers) and all strings of length <= 2 (quick) / 3 (thorough); "
              "(3) operand syntax: the text the real MIR_output_op prints for a symbolic memory operand (base/index each absent or any register, disp, scale, alias/nonalias) is read "
-             "back by a reference reader written from MIR.md's operand syntax and must denote the operand printed.",
+             "back by a reference reader written from MIR.md's operand syntax and must denote the operand printed; likewise the header line of a prototype "
+             "with symbolic numbers of results / arguments and vararg flag (hdr.proto).",
         note="NOT decided: integer and floating-point immediates (formatting/parsing is libc's: %.*e, strtod - no CBMC model), whole-module text "
              "identity and execution identity after re-scan, re-scanning by the REAL scanner's operand branch (fragment 3 uses a reference reader, memory operands only).  fprintf is a harness stub (literal "
              "text, %s, %c, %03o exact; numeric conversions a placeholder); ASCII/C locale.  KNOWN FINDING (known-findings.txt): a string whose last "
@@ -215,7 +216,8 @@ CLAIMS = {
              "external-call logs - for ALL inputs within the loop bounds.  Corpus: 9 mir-tests, hand-written files and 8 generated families (CFG "
              "shapes incl. switch/laddr/jmpi, memory operand forms with aliasing stores/loads, register pressure > 14 int / 14 fp, alloca, overflow "
              "insns, 64/32-bit/f/d mixes, calls with live results, GVN-foldable constants incl. every compare opcode on sign/width-discriminating pairs and "
-             "never-executed trapping divisions, overlapping stores into alloca blocks, compares with memory operands).",
+             "never-executed trapping divisions, overlapping stores into alloca blocks, compares with memory operands, and a `passes` family - guarded "
+             "trapping insns with loop-invariant operands in loops, chained extensions / copies with a redefinition in between - run at all four levels in both tiers).",
         note="Programs outside the corpus; <= 60 insns, trip counts <= 4, <= 200 executed icode insns per activation, depth <= 3, <= 4 external calls; "
              "compile-time constants concrete (the symbolic-constant fold sub-check of DESIGN section 3 is not built); blk types, variadic definitions, "
              "long double data and mir-tests 3/9/10/11/13/15/16 excluded (reasons in the evidence); lazy-BB code is C03's non-claim.  Trusted base as C05.",
